@@ -217,6 +217,14 @@ def check_response(acc, r, files, origin):
     if "panic" in p:
         panic("parse", p["panic"])
         return
+    if "work_cap_exceeded" in p:
+        # H3 in the parser: more statements parsed / files read than the cap - a logical step count, not a timeout
+        if origin_class(origin) in CURATED:
+            acc.violation("work-explosion|parse|%s" % origin_class(origin), "more than %d parser steps (1 per statement, 1024 per source file read) for the %d-byte input %s" % (
+                p["work_cap_exceeded"], sum(len(t) for t in files.values()), origin[:60]), dict(witness, stage="parse"))
+        else:
+            acc.inconc("work cap (%d parser steps) exceeded by a random input: %s" % (p["work_cap_exceeded"], origin[:60]))
+        return
     check_diags("parse", p.get("diags", []))
     for name, v in (p.get("display") or {}).items():
         if isinstance(v, dict) and "panic" in v:
